@@ -2,7 +2,7 @@
 # Thorough tier of all five checks in /verif (writes evidence/<id>.json); logs under /tmp/final/.
 mkdir -p /tmp/final
 cd /verif
-for p in C15 C16 C18 C20 C17; do
+for p in C17 C16 C18 C20 C15; do
   ./check $p --tier thorough > /tmp/final/$p.log 2>&1 < /dev/null
   echo "$p rc=$? $(date)" >> /tmp/final/summary
 done
